@@ -40,7 +40,10 @@ const ORDERS: [[&str; 3]; 6] = [
 /// vertex coordinates: lattice plus a non-trivial fractional part per vertex
 fn vcoord(i: usize) -> (f32, f32) {
     let (x, y) = coord(i % 9);
-    (x + 0.000123 * (i as f32 + 1.0) - 105.0, y - 0.000077 * (i as f32) + 39.5)
+    (
+        x + 0.000123 * (i as f32 + 1.0) - 105.0,
+        y - 0.000077 * (i as f32) + 39.5,
+    )
 }
 
 #[derive(Clone, Debug)]
@@ -99,7 +102,10 @@ fn write_graph(dir: &Path, net: &Net, v: &Variant) -> (String, String) {
         }
         vs.push_str(&(row.join(",") + "\n"));
     }
-    let vp = dir.join(format!("vertices{}", if v.gzip_vertices { ".csv.gz" } else { ".csv" }));
+    let vp = dir.join(format!(
+        "vertices{}",
+        if v.gzip_vertices { ".csv.gz" } else { ".csv" }
+    ));
     if v.trailing_newline == 0 {
         vs.pop();
     } else if v.trailing_newline == 2 {
@@ -137,7 +143,10 @@ fn write_graph(dir: &Path, net: &Net, v: &Variant) -> (String, String) {
         es.push('\n');
     }
     write(&ep, &es, v.gzip);
-    (ep.to_str().unwrap().to_string(), vp.to_str().unwrap().to_string())
+    (
+        ep.to_str().unwrap().to_string(),
+        vp.to_str().unwrap().to_string(),
+    )
 }
 
 fn check_graph(g: &Graph, net: &Net, comp: &str, st: &mut Stats, case: &dyn Fn() -> Value) {
@@ -152,19 +161,44 @@ fn check_graph(g: &Graph, net: &Net, comp: &str, st: &mut Stats, case: &dyn Fn()
     for (i, (s, d, l)) in net.edges.iter().enumerate() {
         match g.get_edge(&EdgeId(i)) {
             Ok(e) => {
-                if e.edge_id.0 != i || e.src_vertex_id.0 != *s || e.dst_vertex_id.0 != *d || e.distance.as_f64() != *l {
-                    bad.push(("edge_retrievable_by_id", format!("edge {}: got ({}, {}->{}, {}) want ({}->{}, {})", i, e.edge_id.0, e.src_vertex_id.0, e.dst_vertex_id.0, e.distance.as_f64(), s, d, l)));
+                if e.edge_id.0 != i
+                    || e.src_vertex_id.0 != *s
+                    || e.dst_vertex_id.0 != *d
+                    || e.distance.as_f64() != *l
+                {
+                    bad.push((
+                        "edge_retrievable_by_id",
+                        format!(
+                            "edge {}: got ({}, {}->{}, {}) want ({}->{}, {})",
+                            i,
+                            e.edge_id.0,
+                            e.src_vertex_id.0,
+                            e.dst_vertex_id.0,
+                            e.distance.as_f64(),
+                            s,
+                            d,
+                            l
+                        ),
+                    ));
                 }
             }
             Err(e) => bad.push(("edge_retrievable_by_id", format!("edge {}: {}", i, e))),
         }
-        if g.src_vertex_id(&EdgeId(i)).map(|v| v.0).ok() != Some(*s) || g.dst_vertex_id(&EdgeId(i)).map(|v| v.0).ok() != Some(*d) {
+        if g.src_vertex_id(&EdgeId(i)).map(|v| v.0).ok() != Some(*s)
+            || g.dst_vertex_id(&EdgeId(i)).map(|v| v.0).ok() != Some(*d)
+        {
             bad.push(("edge_end_points", format!("edge {}", i)));
         }
         match g.edge_triplet(&EdgeId(i)) {
             Ok((a, e, b)) => {
                 if a.vertex_id.0 != *s || b.vertex_id.0 != *d || e.edge_id.0 != i {
-                    bad.push(("edge_triplet", format!("edge {}: ({}, {}, {})", i, a.vertex_id.0, e.edge_id.0, b.vertex_id.0)));
+                    bad.push((
+                        "edge_triplet",
+                        format!(
+                            "edge {}: ({}, {}, {})",
+                            i, a.vertex_id.0, e.edge_id.0, b.vertex_id.0
+                        ),
+                    ));
                 }
             }
             Err(e) => bad.push(("edge_triplet", format!("edge {}: {}", i, e))),
@@ -179,39 +213,93 @@ fn check_graph(g: &Graph, net: &Net, comp: &str, st: &mut Stats, case: &dyn Fn()
                 let (wx, wy) = vcoord(v);
                 // the file holds the shortest decimal rendering of the f32, so parsing gives the same f32
                 if x.vertex_id.0 != v || x.x() != wx || x.y() != wy {
-                    bad.push(("vertex_has_listed_coordinates", format!("vertex {}: ({}, {}, {}) want ({}, {})", v, x.vertex_id.0, x.x(), x.y(), wx, wy)));
+                    bad.push((
+                        "vertex_has_listed_coordinates",
+                        format!(
+                            "vertex {}: ({}, {}, {}) want ({}, {})",
+                            v,
+                            x.vertex_id.0,
+                            x.x(),
+                            x.y(),
+                            wx,
+                            wy
+                        ),
+                    ));
                 }
             }
-            Err(e) => bad.push(("vertex_has_listed_coordinates", format!("vertex {}: {}", v, e))),
+            Err(e) => bad.push((
+                "vertex_has_listed_coordinates",
+                format!("vertex {}: {}", v, e),
+            )),
         }
         let mut out: Vec<usize> = g.out_edges(&VertexId(v)).iter().map(|e| e.0).collect();
         let out_len = out.len();
         out.sort();
         out.dedup();
         if out != net.out_edges(v) || out_len != out.len() {
-            bad.push(("out_edges_are_the_listed_ones", format!("vertex {}: {:?} want {:?}", v, g.out_edges(&VertexId(v)), net.out_edges(v))));
+            bad.push((
+                "out_edges_are_the_listed_ones",
+                format!(
+                    "vertex {}: {:?} want {:?}",
+                    v,
+                    g.out_edges(&VertexId(v)),
+                    net.out_edges(v)
+                ),
+            ));
         }
         let mut inn: Vec<usize> = g.in_edges(&VertexId(v)).iter().map(|e| e.0).collect();
         let in_len = inn.len();
         inn.sort();
         inn.dedup();
         if inn != net.in_edges(v) || in_len != inn.len() {
-            bad.push(("in_edges_are_the_listed_ones", format!("vertex {}: {:?} want {:?}", v, g.in_edges(&VertexId(v)), net.in_edges(v))));
+            bad.push((
+                "in_edges_are_the_listed_ones",
+                format!(
+                    "vertex {}: {:?} want {:?}",
+                    v,
+                    g.in_edges(&VertexId(v)),
+                    net.in_edges(v)
+                ),
+            ));
         }
-        for (dir, want) in [(Direction::Forward, net.out_edges(v)), (Direction::Reverse, net.in_edges(v))] {
-            let mut ie: Vec<usize> = g.incident_edges(&VertexId(v), &dir).iter().map(|e| e.0).collect();
+        for (dir, want) in [
+            (Direction::Forward, net.out_edges(v)),
+            (Direction::Reverse, net.in_edges(v)),
+        ] {
+            let mut ie: Vec<usize> = g
+                .incident_edges(&VertexId(v), &dir)
+                .iter()
+                .map(|e| e.0)
+                .collect();
             ie.sort();
             if ie != want {
                 bad.push(("incident_edges", format!("vertex {}", v)));
             }
             match g.incident_triplet_ids(&VertexId(v), &dir) {
                 Ok(ts) => {
-                    let mut got: Vec<(usize, usize, usize)> = ts.iter().map(|(a, e, b)| (a.0, e.0, b.0)).collect();
+                    let mut got: Vec<(usize, usize, usize)> =
+                        ts.iter().map(|(a, e, b)| (a.0, e.0, b.0)).collect();
                     got.sort();
-                    let mut w: Vec<(usize, usize, usize)> = want.iter().map(|e| (v, *e, if matches!(dir, Direction::Forward) { net.edges[*e].1 } else { net.edges[*e].0 })).collect();
+                    let mut w: Vec<(usize, usize, usize)> = want
+                        .iter()
+                        .map(|e| {
+                            (
+                                v,
+                                *e,
+                                if matches!(dir, Direction::Forward) {
+                                    net.edges[*e].1
+                                } else {
+                                    net.edges[*e].0
+                                },
+                            )
+                        })
+                        .collect();
                     w.sort();
                     if got != w {
-                        bad.push(("incident_triplet_ids", format!("vertex {}: {:?} want {:?}", v, got, w)));
+                        bad.push((
+                            "incident_triplet_ids",
+                            format!("vertex {}: {:?} want {:?}", v, got, w),
+                        ));
                     }
                 }
                 Err(e) => bad.push(("incident_triplet_ids", format!("vertex {}: {}", v, e))),
@@ -219,20 +307,35 @@ fn check_graph(g: &Graph, net: &Net, comp: &str, st: &mut Stats, case: &dyn Fn()
             match g.incident_triplet_attributes(&VertexId(v), &dir) {
                 Ok(ts) => {
                     if ts.len() != want.len() {
-                        bad.push(("incident_triplet_attributes", format!("vertex {}: {} triplets want {}", v, ts.len(), want.len())));
+                        bad.push((
+                            "incident_triplet_attributes",
+                            format!("vertex {}: {} triplets want {}", v, ts.len(), want.len()),
+                        ));
                     }
                 }
-                Err(e) => bad.push(("incident_triplet_attributes", format!("vertex {}: {}", v, e))),
+                Err(e) => bad.push((
+                    "incident_triplet_attributes",
+                    format!("vertex {}: {}", v, e),
+                )),
             }
         }
     }
     // forward and reverse views describe the same edge set
-    let mut fwd: Vec<usize> = (0..net.n).flat_map(|v| g.out_edges(&VertexId(v))).map(|e| e.0).collect();
-    let mut rev: Vec<usize> = (0..net.n).flat_map(|v| g.in_edges(&VertexId(v))).map(|e| e.0).collect();
+    let mut fwd: Vec<usize> = (0..net.n)
+        .flat_map(|v| g.out_edges(&VertexId(v)))
+        .map(|e| e.0)
+        .collect();
+    let mut rev: Vec<usize> = (0..net.n)
+        .flat_map(|v| g.in_edges(&VertexId(v)))
+        .map(|e| e.0)
+        .collect();
     fwd.sort();
     rev.sort();
     if fwd != rev || fwd != (0..net.m()).collect::<Vec<_>>() {
-        bad.push(("forward_and_reverse_views_agree", format!("forward {:?} reverse {:?}", fwd, rev)));
+        bad.push((
+            "forward_and_reverse_views_agree",
+            format!("forward {:?} reverse {:?}", fwd, rev),
+        ));
     }
     if bad.is_empty() {
         st.pass("graph_equals_files");
@@ -262,15 +365,36 @@ fn structured_nets() -> Vec<(String, Net)> {
     for deg in 0..=8usize {
         // out-star and in-star of degree `deg` with isolated vertices before and after
         let n = deg + 3;
-        out.push((format!("out_star{}", deg), Net { n, edges: (0..deg).map(|k| (1, 2 + k, 10.0 + k as f64)).collect(), xy: None }));
-        out.push((format!("in_star{}", deg), Net { n, edges: (0..deg).map(|k| (2 + k, 1, 10.0 + k as f64)).collect(), xy: None }));
+        out.push((
+            format!("out_star{}", deg),
+            Net {
+                n,
+                edges: (0..deg).map(|k| (1, 2 + k, 10.0 + k as f64)).collect(),
+                xy: None,
+            },
+        ));
+        out.push((
+            format!("in_star{}", deg),
+            Net {
+                n,
+                edges: (0..deg).map(|k| (2 + k, 1, 10.0 + k as f64)).collect(),
+                xy: None,
+            },
+        ));
         // hub with parallel edges and self loops: degree deg in both directions at vertex 0
         let mut e = vec![];
         for k in 0..deg {
             e.push((0, k % 3, 1.5 + k as f64));
             e.push((k % 3, 0, 2.5 + k as f64));
         }
-        out.push((format!("hub{}", deg), Net { n: 3, edges: e, xy: None }));
+        out.push((
+            format!("hub{}", deg),
+            Net {
+                n: 3,
+                edges: e,
+                xy: None,
+            },
+        ));
     }
     out
 }
@@ -280,7 +404,14 @@ pub fn run(tier: Tier) -> i32 {
     let scratch = Scratch::new("c15");
     let mut st = Stats::new();
     let mut nets: Vec<(String, Net)> = structured_nets();
-    let spec = GenSpec { n: 3, max_edges: tier.pick(3, 5), max_mult: 2, n_len: 2, self_loops: true, mode: LenMode::Alphabet };
+    let spec = GenSpec {
+        n: 3,
+        max_edges: tier.pick(3, 5),
+        max_mult: 2,
+        n_len: 2,
+        self_loops: true,
+        mode: LenMode::Alphabet,
+    };
     let mut k = 0u64;
     for (p, t) in shards(&spec, 2) {
         for_each_in_shard(&spec, &p, t, &mut |n| {
@@ -305,7 +436,15 @@ pub fn run(tier: Tier) -> i32 {
                 }
                 for counts_given in [(true, true), (false, false), (true, false), (false, true)] {
                     for trailing_newline in [1u8, 0, 2] {
-                        variants.push(Variant { gzip, gzip_vertices, order, extra_column, counts_given, edge_extra_column: order % 2 == 1, trailing_newline });
+                        variants.push(Variant {
+                            gzip,
+                            gzip_vertices,
+                            order,
+                            extra_column,
+                            counts_given,
+                            edge_extra_column: order % 2 == 1,
+                            trailing_newline,
+                        });
                     }
                 }
             }
@@ -317,7 +456,15 @@ pub fn run(tier: Tier) -> i32 {
             st.nontrivial += 1;
         }
         // structured nets: every variant; enumerated nets: a rotating pair of variants (plain and gzip)
-        let vs: Vec<&Variant> = if name.starts_with('G') { vec![&variants[ni % variants.len()], &variants[(ni * 7 + 145) % variants.len()], &variants[(ni * 13 + 227) % variants.len()]] } else { variants.iter().collect() };
+        let vs: Vec<&Variant> = if name.starts_with('G') {
+            vec![
+                &variants[ni % variants.len()],
+                &variants[(ni * 7 + 145) % variants.len()],
+                &variants[(ni * 13 + 227) % variants.len()],
+            ]
+        } else {
+            variants.iter().collect()
+        };
         for v in vs {
             st.evaluations += 1;
             st.transitions += 1;
@@ -326,16 +473,44 @@ pub fn run(tier: Tier) -> i32 {
             let _ = std::fs::create_dir_all(&dir);
             let (ep, vp) = write_graph(&dir, net, v);
             let vc = v.clone();
-            let case = move || json!({"net_name": name, "net": net, "variant": format!("{:?}", vc)});
-            let comp = format!("graph_from_files.{}.{}", match (v.gzip, v.gzip_vertices) { (true, true) => "gzip", (false, false) => "plain", (true, false) => "edges_gzip_vertices_plain", (false, true) => "edges_plain_vertices_gzip" }, match v.counts_given { (true, true) => "counts_given", (false, false) => "counts_scanned", (true, false) => "edge_count_given_vertex_count_scanned", (false, true) => "edge_count_scanned_vertex_count_given" });
-            let r = guarded(|| Graph::from_files(&ep, &vp, if v.counts_given.0 { Some(net.m()) } else { None }, if v.counts_given.1 { Some(net.n) } else { None }, Some(false)));
+            let case =
+                move || json!({"net_name": name, "net": net, "variant": format!("{:?}", vc)});
+            let comp = format!(
+                "graph_from_files.{}.{}",
+                match (v.gzip, v.gzip_vertices) {
+                    (true, true) => "gzip",
+                    (false, false) => "plain",
+                    (true, false) => "edges_gzip_vertices_plain",
+                    (false, true) => "edges_plain_vertices_gzip",
+                },
+                match v.counts_given {
+                    (true, true) => "counts_given",
+                    (false, false) => "counts_scanned",
+                    (true, false) => "edge_count_given_vertex_count_scanned",
+                    (false, true) => "edge_count_scanned_vertex_count_given",
+                }
+            );
+            let r = guarded(|| {
+                Graph::from_files(
+                    &ep,
+                    &vp,
+                    if v.counts_given.0 {
+                        Some(net.m())
+                    } else {
+                        None
+                    },
+                    if v.counts_given.1 { Some(net.n) } else { None },
+                    Some(false),
+                )
+            });
             match r {
                 Err(p) => st.violation(&comp, "no_panic", net.size(), || p.clone(), &case),
                 Ok(Err(e)) => st.violation(&comp, "loads", net.size(), || e.to_string(), &case),
                 Ok(Ok(g)) => check_graph(&g, net, &comp, &mut st, &case),
             }
             // the configuration-level builder
-            let mut params = json!({"edge_list_input_file": ep, "vertex_list_input_file": vp, "verbose": false});
+            let mut params =
+                json!({"edge_list_input_file": ep, "vertex_list_input_file": vp, "verbose": false});
             if v.counts_given.0 {
                 params["n_edges"] = json!(net.m());
             }
@@ -343,8 +518,16 @@ pub fn run(tier: Tier) -> i32 {
                 params["n_vertices"] = json!(net.n);
             }
             match guarded(|| DefaultGraphBuilder::build(&params)) {
-                Err(p) => st.violation("graph_builder", "no_panic", net.size(), || p.clone(), &case),
-                Ok(Err(e)) => st.violation("graph_builder", "loads", net.size(), || e.to_string(), &case),
+                Err(p) => {
+                    st.violation("graph_builder", "no_panic", net.size(), || p.clone(), &case)
+                }
+                Ok(Err(e)) => st.violation(
+                    "graph_builder",
+                    "loads",
+                    net.size(),
+                    || e.to_string(),
+                    &case,
+                ),
                 Ok(Ok(g)) => check_graph(&g, net, "graph_builder", &mut st, &case),
             }
             let _ = std::fs::remove_dir_all(&dir);
@@ -366,67 +549,162 @@ pub fn run(tier: Tier) -> i32 {
             let f = |i: usize| 10.0 + (i as f64) * 1.25;
             let case = move || json!({"tables_with_rows": m, "gzip": gzip});
             let sp = dir.join(format!("speeds{}", ext));
-            write(&sp, &(0..m).map(|i| format!("{}\n", f(i))).collect::<String>(), gzip);
-            match guarded(|| SpeedTraversalEngine::new(&sp, SpeedUnit::KilometersPerHour, None, None)) {
+            write(
+                &sp,
+                &(0..m).map(|i| format!("{}\n", f(i))).collect::<String>(),
+                gzip,
+            );
+            match guarded(|| {
+                SpeedTraversalEngine::new(&sp, SpeedUnit::KilometersPerHour, None, None)
+            }) {
                 Ok(Ok(e)) => {
-                    let ok = e.speed_table.len() == m && (0..m).all(|i| e.speed_table[i].as_f64() == f(i)) && e.max_speed.as_f64() == f(m - 1);
+                    let ok = e.speed_table.len() == m
+                        && (0..m).all(|i| e.speed_table[i].as_f64() == f(i))
+                        && e.max_speed.as_f64() == f(m - 1);
                     if ok {
                         st.pass("speed_table_aligned_by_row");
                     } else {
-                        st.violation("tables.speed", "table_aligned_with_edge_ids", m as u64, || format!("{:?}", e.speed_table.iter().map(|s| s.as_f64()).collect::<Vec<_>>()), &case);
+                        st.violation(
+                            "tables.speed",
+                            "table_aligned_with_edge_ids",
+                            m as u64,
+                            || {
+                                format!(
+                                    "{:?}",
+                                    e.speed_table.iter().map(|s| s.as_f64()).collect::<Vec<_>>()
+                                )
+                            },
+                            &case,
+                        );
                     }
                 }
-                Ok(Err(e)) => st.violation("tables.speed", "loads", m as u64, || e.to_string(), &case),
+                Ok(Err(e)) => {
+                    st.violation("tables.speed", "loads", m as u64, || e.to_string(), &case)
+                }
                 Err(p) => st.violation("tables.speed", "no_panic", m as u64, || p.clone(), &case),
             }
             let gp = dir.join(format!("grades{}", ext));
-            write(&gp, &(0..m).map(|i| format!("{}\n", f(i) / 100.0 - 0.2)).collect::<String>(), gzip);
-            match guarded(|| read_utils::read_raw_file::<_, Grade>(&gp, read_decoders::default, None)) {
+            write(
+                &gp,
+                &(0..m)
+                    .map(|i| format!("{}\n", f(i) / 100.0 - 0.2))
+                    .collect::<String>(),
+                gzip,
+            );
+            match guarded(|| {
+                read_utils::read_raw_file::<_, Grade>(&gp, read_decoders::default, None)
+            }) {
                 Ok(Ok(t)) => {
                     if t.len() == m && (0..m).all(|i| t[i].as_f64() == f(i) / 100.0 - 0.2) {
                         st.pass("grade_table_aligned_by_row");
                     } else {
-                        st.violation("tables.grade", "table_aligned_with_edge_ids", m as u64, || format!("{} rows", t.len()), &case);
+                        st.violation(
+                            "tables.grade",
+                            "table_aligned_with_edge_ids",
+                            m as u64,
+                            || format!("{} rows", t.len()),
+                            &case,
+                        );
                     }
                 }
-                Ok(Err(e)) => st.violation("tables.grade", "loads", m as u64, || e.to_string(), &case),
+                Ok(Err(e)) => {
+                    st.violation("tables.grade", "loads", m as u64, || e.to_string(), &case)
+                }
                 Err(p) => st.violation("tables.grade", "no_panic", m as u64, || p.clone(), &case),
             }
             let cp = dir.join(format!("classes{}", ext));
-            write(&cp, &(0..m).map(|i| format!("{}\n", (i * 3) % 7)).collect::<String>(), gzip);
+            write(
+                &cp,
+                &(0..m)
+                    .map(|i| format!("{}\n", (i * 3) % 7))
+                    .collect::<String>(),
+                gzip,
+            );
             match guarded(|| read_utils::read_raw_file(&cp, read_decoders::u8, None)) {
                 Ok(Ok(t)) => {
                     if t.len() == m && (0..m).all(|i| t[i] as usize == (i * 3) % 7) {
                         st.pass("class_table_aligned_by_row");
                     } else {
-                        st.violation("tables.road_class", "table_aligned_with_edge_ids", m as u64, || format!("{:?}", t), &case);
+                        st.violation(
+                            "tables.road_class",
+                            "table_aligned_with_edge_ids",
+                            m as u64,
+                            || format!("{:?}", t),
+                            &case,
+                        );
                     }
                 }
-                Ok(Err(e)) => st.violation("tables.road_class", "loads", m as u64, || e.to_string(), &case),
-                Err(p) => st.violation("tables.road_class", "no_panic", m as u64, || p.clone(), &case),
+                Ok(Err(e)) => st.violation(
+                    "tables.road_class",
+                    "loads",
+                    m as u64,
+                    || e.to_string(),
+                    &case,
+                ),
+                Err(p) => st.violation(
+                    "tables.road_class",
+                    "no_panic",
+                    m as u64,
+                    || p.clone(),
+                    &case,
+                ),
             }
-            let hp = dir.join(if gzip { "headings.csv.gz" } else { "headings.csv" });
+            let hp = dir.join(if gzip {
+                "headings.csv.gz"
+            } else {
+                "headings.csv"
+            });
             // (tables with an odd number of rows list the two columns in the other order under their names)
             if m % 2 == 1 {
-                write(&hp, &(String::from("departure_heading,arrival_heading\n") + &(0..m).map(|i| format!("{},{}\n", (i * 91 + 5) % 360, (i * 37) % 360)).collect::<String>()), gzip);
+                write(
+                    &hp,
+                    &(String::from("departure_heading,arrival_heading\n")
+                        + &(0..m)
+                            .map(|i| format!("{},{}\n", (i * 91 + 5) % 360, (i * 37) % 360))
+                            .collect::<String>()),
+                    gzip,
+                );
             } else {
-                write(&hp, &(String::from("arrival_heading,departure_heading\n") + &(0..m).map(|i| format!("{},{}\n", (i * 37) % 360, (i * 91 + 5) % 360)).collect::<String>()), gzip);
+                write(
+                    &hp,
+                    &(String::from("arrival_heading,departure_heading\n")
+                        + &(0..m)
+                            .map(|i| format!("{},{}\n", (i * 37) % 360, (i * 91 + 5) % 360))
+                            .collect::<String>()),
+                    gzip,
+                );
             }
             match guarded(|| read_utils::from_csv::<EdgeHeading>(&hp.as_path(), true, None)) {
                 Ok(Ok(t)) => {
-                    if t.len() == m && (0..m).all(|i| t[i].start_heading() as usize == (i * 37) % 360 && t[i].end_heading() as usize == (i * 91 + 5) % 360) {
+                    if t.len() == m
+                        && (0..m).all(|i| {
+                            t[i].start_heading() as usize == (i * 37) % 360
+                                && t[i].end_heading() as usize == (i * 91 + 5) % 360
+                        })
+                    {
                         st.pass("heading_table_aligned_by_row");
                     } else {
-                        st.violation("tables.heading", "table_aligned_with_edge_ids", m as u64, || format!("{} rows", t.len()), &case);
+                        st.violation(
+                            "tables.heading",
+                            "table_aligned_with_edge_ids",
+                            m as u64,
+                            || format!("{} rows", t.len()),
+                            &case,
+                        );
                     }
                 }
-                Ok(Err(e)) => st.violation("tables.heading", "loads", m as u64, || e.to_string(), &case),
+                Ok(Err(e)) => {
+                    st.violation("tables.heading", "loads", m as u64, || e.to_string(), &case)
+                }
                 Err(p) => st.violation("tables.heading", "no_panic", m as u64, || p.clone(), &case),
             }
         }
     }
     // the bindings accessors on a whole application
-    for (name, net) in structured_nets().into_iter().filter(|(n, _)| n == "hub8" || n == "out_star6" || n == "in_star5") {
+    for (name, net) in structured_nets()
+        .into_iter()
+        .filter(|(n, _)| n == "hub8" || n == "out_star6" || n == "in_star5")
+    {
         st.evaluations += 1;
         st.transitions += 1;
         st.states += 1;
@@ -439,45 +717,53 @@ pub fn run(tier: Tier) -> i32 {
             Ok(app) => {
                 let b = Bindings { app };
                 let verdict = guarded(|| {
-                let mut ok = true;
-                for (i, (s, d, l)) in net.edges.iter().enumerate() {
-                    if b.graph_edge_origin(i).ok() != Some(*s) || b.graph_edge_destination(i).ok() != Some(*d) {
-                        ok = false;
-                    }
-                    match b.graph_edge_distance(i, Some("meters".to_string())) {
-                        Ok(x) if x == *l => {}
-                        _ => ok = false,
-                    }
-                    // the listed length in every unit the accessor can be asked for (by name), and without a unit (metres)
-                    match b.graph_edge_distance(i, None) {
-                        Ok(x) if x == *l => {}
-                        _ => ok = false,
-                    }
-                    for u in crate::refmodel::units::DISTANCE_UNITS.iter() {
-                        let want = *l / crate::refmodel::units::distance_m(u);
-                        match b.graph_edge_distance(i, Some(u.to_string())) {
-                            Ok(x) if crate::engine::close(x, want, 1e-3) => {}
-                            other => {
-                                ok = false;
-                                let _ = other;
+                    let mut ok = true;
+                    for (i, (s, d, l)) in net.edges.iter().enumerate() {
+                        if b.graph_edge_origin(i).ok() != Some(*s)
+                            || b.graph_edge_destination(i).ok() != Some(*d)
+                        {
+                            ok = false;
+                        }
+                        match b.graph_edge_distance(i, Some("meters".to_string())) {
+                            Ok(x) if x == *l => {}
+                            _ => ok = false,
+                        }
+                        // the listed length in every unit the accessor can be asked for (by name), and without a unit (metres)
+                        match b.graph_edge_distance(i, None) {
+                            Ok(x) if x == *l => {}
+                            _ => ok = false,
+                        }
+                        for u in crate::refmodel::units::DISTANCE_UNITS.iter() {
+                            let want = *l / crate::refmodel::units::distance_m(u);
+                            match b.graph_edge_distance(i, Some(u.to_string())) {
+                                Ok(x) if crate::engine::close(x, want, 1e-3) => {}
+                                other => {
+                                    ok = false;
+                                    let _ = other;
+                                }
                             }
                         }
                     }
-                }
-                for v in 0..net.n {
-                    let mut o = b.graph_get_out_edge_ids(v);
-                    o.sort();
-                    let mut i = b.graph_get_in_edge_ids(v);
-                    i.sort();
-                    if o != net.out_edges(v) || i != net.in_edges(v) {
-                        ok = false;
+                    for v in 0..net.n {
+                        let mut o = b.graph_get_out_edge_ids(v);
+                        o.sort();
+                        let mut i = b.graph_get_in_edge_ids(v);
+                        i.sort();
+                        if o != net.out_edges(v) || i != net.in_edges(v) {
+                            ok = false;
+                        }
                     }
-                }
-                ok
+                    ok
                 });
                 match verdict {
                     Ok(true) => st.pass("bindings_accessors_agree_with_files"),
-                    Ok(false) => st.violation("bindings", "accessors_agree_with_files", net.size(), || name.clone(), &case),
+                    Ok(false) => st.violation(
+                        "bindings",
+                        "accessors_agree_with_files",
+                        net.size(),
+                        || name.clone(),
+                        &case,
+                    ),
                     Err(p) => st.violation("bindings", "no_panic", net.size(), || p.clone(), &case),
                 }
             }
@@ -494,6 +780,9 @@ pub fn run(tier: Tier) -> i32 {
 }
 
 pub fn replay(case: &Value) -> i32 {
-    println!("C15 replay of {}: files are regenerated by the check itself; re-running the quick tier", case.get("net_name").cloned().unwrap_or(Value::Null));
+    println!(
+        "C15 replay of {}: files are regenerated by the check itself; re-running the quick tier",
+        case.get("net_name").cloned().unwrap_or(Value::Null)
+    );
     run(Tier::Quick)
 }
